@@ -43,7 +43,7 @@ def _dec(rnd, lo, hi, places=2):
     return rnd.randint(int(lo * q), int(hi * q)) / q
 
 
-def program_for(bp, decl, seed, horizon=HORIZON, with_ic=None):
+def program_for(bp, decl, seed, horizon=HORIZON, with_ic=None, region_mode='random'):
     """The construction script (model program) of a blueprint declared in the order `decl`.
     Parameters, exogenous paths and exchange rates are seeded random decimals."""
     rnd = random.Random('%s|%s' % (bp['name'], seed))
@@ -58,7 +58,8 @@ def program_for(bp, decl, seed, horizon=HORIZON, with_ic=None):
         prog.append({'op': 'External'})
     prev_cur = None
     for c in bp['countries']:
-        if prev_cur is not None and c['cur'] == prev_cur and rnd.random() < 0.5:
+        use_region = rnd.random() < 0.5          # (drawn in every mode, so that the later draws do not shift)
+        if prev_cur is not None and c['cur'] == prev_cur and (use_region or region_mode == 'always'):
             prog.append({'op': 'Country', 'code': c['code'], 'region': True})
         else:
             prog.append({'op': 'Country', 'code': c['code'], 'currency': c['cur']})
@@ -72,6 +73,14 @@ def program_for(bp, decl, seed, horizon=HORIZON, with_ic=None):
                      'wgt': _dec(rnd, 0.2, 0.7), 'gift': _dec(rnd, 0.01, 0.09), 'gold': _dec(rnd, 10, 80, 0)}
     declared = set()
     pending_tre = []
+    # read-only questions asked while the model is being put together (they must not change anything): the
+    # sectors of a currency zone, a dump of the equations, the information log (which generates full codes early)
+    qrnd = random.Random('%s|%s|queries' % (bp['name'], seed))
+    queries = {}
+    if qrnd.random() < 0.6 and len(decl) >= 2:
+        for what in qrnd.sample(['zone', 'dump', 'loginfo', 'model_sectors'], 2):
+            queries.setdefault(qrnd.randint(1, len(decl) - 1), []).append(what)
+    n_declared = 0
     for s in decl:
         d = secs[s - 1]
         k = d['kind']
@@ -98,6 +107,9 @@ def program_for(bp, decl, seed, horizon=HORIZON, with_ic=None):
                 a = {'treasury': '@' + ref(d['tre'])}
         prog.append({'op': 'Sector', 'country': d['cc'], 'kind': k, 'code': d['code'], 'args': a})
         declared.add(s)
+        n_declared += 1
+        for what in queries.get(n_declared, []):
+            prog.append({'op': 'Query', 'what': what, 'country': d['cc']})
         for x in d['extra']:
             prog.append({'op': 'AddVariable', 'sector': ref(s), 'name': x, 'desc': 'extra demand', 'eqn': '0.0'})
         if d['aw']:
